@@ -17,6 +17,8 @@ def templates(tier, seed):
     for vc, ic in itertools.product((False, True), repeat=2):
         for lazy in (False, True):
             ts.append(Template(f"SI/val_coerce={int(vc)}/idx_coerce={int(ic)}/lazy={int(lazy)}/N={N}", t_sidx, (N, lazy, vc, ic)))
+            if tier != "quick":
+                ts.append(Template(f"SI/val_coerce={int(vc)}/idx_coerce={int(ic)}/lazy={int(lazy)}/N=3", t_sidx, (3, lazy, vc, ic)))
     # add_missing_columns with several gaps: every non-empty subset of four declared columns, with and without `ordered`
     names = ["c0", "c1", "c2", "c3"]
     for k in range(1, 5):
@@ -40,6 +42,9 @@ def templates(tier, seed):
         c["distinct_labels"] = c["drop"]
         tid = "P/" + "".join(arr) + "/" + "/".join(f"{k}={v}" for k, v in c.items() if k != "distinct_labels")
         ts.append(Template(tid, t_parse, (arr, N, c)))
+        # (left out at three rows: default filling on arrangement `ab` — z3 answers `unknown` at one branch after 90 s, which is a gap, not a verdict)
+        if tier != "quick" and n_on <= 1 and not (c["default"] and arr == ["a", "b"]):  # three rows: a dropped row between two kept ones, a default filled next to a coerced cell
+            ts.append(Template(tid + "/N=3", t_parse, (arr, 3, dict(c))))
     for tid, fn, args in tmpl.standard_cases(tier):
         if tid.startswith(("SP/", "DT/")):
             ts.append(Template(tid, tmpl.pick(fn, LABELS), args))
